@@ -62,6 +62,7 @@ Proof. apply asin_range_deg. Qed.
 
 (* decision tactic: degree ranges of atan2 / asin results, then linear arithmetic *)
 Ltac sph_dec :=
+  expose_R;
   repeat match goal with
   | |- context [atan2 ?y ?x] =>
       lazymatch goal with
